@@ -324,18 +324,20 @@ class NonCovalentlyCoupledGroups:
             # swap the interactions!
             self.transfer_determinant(group1.determinants['coulomb'],
                                       group2.determinants['coulomb'],
-                                      group1.label, group2.label)
+                                      group1.label, group2.label,
+                                      group1, group2)
             if include_side_chain_hbs:
                 self.transfer_determinant(group1.determinants['sidechain'],
                                           group2.determinants['sidechain'],
-                                          group1.label, group2.label)
+                                          group1.label, group2.label,
+                                          group1, group2)
                 # re-calculate pKa values
                 group1.calculate_total_pka()
                 group2.calculate_total_pka()
 
     @staticmethod
     def transfer_determinant(determinants1, determinants2,
-                             label1, label2):
+                             label1, label2, group1=None, group2=None):
         """Transfer information between two sets of determinants.
 
         Args:
@@ -356,10 +358,15 @@ class NonCovalentlyCoupledGroups:
         # ...and transfer it!
         for det in from1to2:
             det.label = label1
+            if group1 is not None:
+                # keep the group reference in step with the label
+                det.group = group1
             determinants2.append(det)
             determinants1.remove(det)
         for det in from2to1:
             det.label = label2
+            if group2 is not None:
+                det.group = group2
             determinants1.append(det)
             determinants2.remove(det)
 
